@@ -405,7 +405,10 @@ impl<'a, R: Reader + 'a> EhHdrTable<'a, R> {
         let eh_frame_ptr = self.hdr.eh_frame_ptr().direct()?;
 
         // Calculate the offset in the EhFrame section
-        R::Offset::from_u64(ptr - eh_frame_ptr).map(EhFrameOffset)
+        let offset = ptr
+            .checked_sub(eh_frame_ptr)
+            .ok_or(Error::OffsetOutOfBounds(ptr))?;
+        R::Offset::from_u64(offset).map(EhFrameOffset)
     }
 
     /// Returns a parsed FDE for the given address, or `NoUnwindInfoForAddress`
